@@ -49,6 +49,7 @@ def negotiateDispatch (toks : List String) : Option String :=
   match toks with
   | "hs" :: rest => some (hsOp rest)
   | "hsopt" :: rest => some (hsoptOp rest)
+  | "hsrot" :: rest => some (hsOp rest)   -- three connections with a ticket-key rotation in between: one verdict
   | "hspol" :: rest =>
     -- second connection under another ClientAuth policy (same client, same ticket keys): the verdict is that of a
     -- first connection under that policy
